@@ -402,9 +402,20 @@ def check_sink(ctx, prog):
     if not w:
         raise AnalysisBroken('XdlSinkFile::write not found')
     ctx.analysed(w[0])
-    wr = [e for e in fn_exprs(w[0]) if e.get('k') == 'call' and 'operator<<' in (e.get('pq') or '')]
-    cl = [e for e in fn_exprs(w[0]) if e.get('k') == 'call' and e.get('pq') == 'asl::String::operator=' and any(x.get('k') == 'str' and x.get('b') == [] for x in walk_expr(e))]
-    ctx.check(bool(wr) and bool(cl), 'C05.sink', w[0]['pq'], 'XdlSinkFile::write:writes then clears', fwhere(w[0]), 'file << s; s = ""', 'the file sink does not both write the buffer and clear it: output is lost or duplicated')
+    # the buffer handed in is given to the file (operator<< / write / append of the file member with the buffer as argument), then
+    # emptied (`s = ""`, `s.clear()`, `s.resize(0)`), in that order
+    sp = w[0]['params'][0]['id'] if w[0].get('params') else None
+    order = list(fn_exprs(w[0]))
+
+    def names_buf(x):
+        return any(y.get('k') == 'var' and y.get('id') == sp for y in walk_expr(x))
+    wr = [i for i, e in enumerate(order) if e.get('k') == 'call' and ((e.get('pq') or '').split('::')[-1] in ('operator<<', 'write', 'append')) and e.get('obj') is not None and
+          not names_buf(e['obj']) and any(names_buf(a) for a in e.get('a') or [])]
+    cl = [i for i, e in enumerate(order) if e.get('k') == 'call' and e.get('obj') is not None and names_buf(e['obj']) and (
+        (e.get('pq') == 'asl::String::operator=' and any(x.get('k') == 'str' and x.get('b') == [] for x in walk_expr(e))) or
+        ((e.get('pq') or '').split('::')[-1] == 'clear' and not e.get('a')) or
+        ((e.get('pq') or '').split('::')[-1] == 'resize' and e.get('a') and const_val(e['a'][0]) == 0))]
+    ctx.check(bool(wr) and bool(cl) and min(wr) < max(cl), 'C05.sink', w[0]['pq'], 'XdlSinkFile::write:writes then clears', fwhere(w[0]), 'the buffer is written to the file, then emptied', 'the file sink does not both write the buffer and clear it: output is lost or duplicated')
     rd = fn1(prog, 'asl::Xdl::read')
     ctx.analysed(rd)
     loops = [s_ for s_ in ir.walk_stmts(rd['body']) if s_.get('k') in ('while', 'for', 'do')]
